@@ -584,8 +584,10 @@ def parsePrimary : Nat → PS σ → PRes σ Prim
     | .ok (some (.strLit s, sp), ps1) => .ok (.str sp s, ps1)
     | .ok (some (.bytesLit b, sp), ps1) => .ok (.bytes sp b, ps1)
     | .ok (some (.fstrLit segs, sp), ps1) =>
+      -- an error inside a segment is reported at the start of the format string (the nested compiler's
+      -- own line/column are relative to the segment text)
       (match parseSegs f ps1.depth segs with
-       | .error e => .error e
+       | .error _ => .error ⟨sp.s⟩
        | .ok sa => .ok (.fstr sp sa, ps1))
     | .ok (some (.boolLit b, sp), ps1) => .ok (.bool sp b, ps1)
     | .ok (some (.null, sp), ps1) => .ok (.null sp, ps1)
